@@ -1293,3 +1293,315 @@ def _prod(run):
             ok = True
     (run.holds if ok else run.violation)('R15', g.key, 'fold', 'twist product multiplies exp of each element left to right' if ok else
                                          'twist prod is not a left-to-right fold of exp(tw)', f=g)
+
+
+# =========================================================================== C19 Pluecker / plane conventions
+class _Neg(ast.NodeTransformer):
+    """negate every occurrence of <obj>.<attr> for attr in attrs"""
+
+    def __init__(self, obj, attrs):
+        self.obj = obj
+        self.attrs = attrs
+
+    def visit_Attribute(self, n):
+        self.generic_visit(n)
+        if isinstance(n.value, ast.Name) and n.value.id == self.obj and n.attr in self.attrs:
+            return ast.UnaryOp(op=ast.USub(), operand=n)
+        return n
+
+
+def check_even(run, key, desc, obj, attrs, rule='R16s'):
+    """The returned predicate is invariant under negation of obj.attr (direction sense): normal forms before and
+    after the substitution x -> -x coincide (cross/dot/skew odd, abs/norm even)."""
+    cx = Ctx(run, key)
+    r = _single_return_value(cx)
+    if r is None:
+        run.error('%s: %s: expected a single return' % (rule, key))
+        return
+    e = cx.c(r.value)
+    nm = Normaliser(rename=cx.rename, odd_funcs=('skew', 'sin', 'transl', 'vex', 'unitvec'))
+    try:
+        a = nm.poly(e)
+        b = nm.poly(_Neg(obj, attrs).visit(_copy.deepcopy(e)))
+    except Unrecognised as ex:
+        run.error('%s: %s unrecognised: %s' % (rule, key, ex))
+        return
+    if a == b:
+        run.holds(rule, key, desc, 'normal form is unchanged when %s.%s is negated' % (obj, '/'.join(attrs)), f=cx.f, node=r)
+    else:
+        run.violation(rule, key, desc, 'the test changes when the direction %s.%s is reversed (%s becomes %s): lines with opposite '
+                      'direction sense are treated differently from lines with the same sense' % (obj, '/'.join(attrs), a, b), f=cx.f, node=r)
+
+
+def tables_c19(run):
+    # writers of the moment convention v = w x p
+    _plucker_ctor(run, 'geom3d:Plucker.PQ', ['cross(P0 - P1, P0)', 'P0 - P1'], 'moment = (P - Q) x P')
+    _plucker_ctor(run, 'geom3d:Plucker.PointDir', ['cross(P1, P0)', 'P1'], 'moment = dir x point')
+    _plucker_planes(run)
+    check_expr_fn(run, 'geom3d:Plucker.pp', 'principal point', 'cross(SELF.v, SELF.w) / dot(SELF.w, SELF.w)')
+    check_expr_fn(run, 'geom3d:Plucker.uw', 'unit direction', 'unitvec(SELF.w)')
+    check_expr_fn(run, 'geom3d:Plucker.vec', 'vec', 'r_[SELF.v, SELF.w]')
+    check_expr_fn(run, 'geom3d:Plucker.v', 'moment slot', 'SELF.data[0][0:3]')
+    check_expr_fn(run, 'geom3d:Plucker.w', 'direction slot', 'SELF.data[0][3:6]')
+    # point(lam) = pp + uw * lam
+    cx = Ctx(run, 'geom3d:Plucker.point')
+    r = _single_return_value(cx)
+    if r is not None:
+        g = cx.norm.poly(canon(cx.fi, r.value, inline=False))
+        w = Normaliser().poly(parse_expr('SELF.pp.reshape((3, 1)) + SELF.uw.reshape((3, 1)) * lam'))
+        w2 = Normaliser().poly(parse_expr('SELF.pp.reshape((3, 1)) + SELF.uw.reshape((3, 1)) * P0'))
+        (run.holds if g in (w, w2) else run.violation)(RULE, cx.f.key, 'point(lam)', 'pp + uw * lam' if g in (w, w2) else 'point is %s, not pp + uw*lam' % g, f=cx.f, node=r)
+    # closest: lam = (x - pp) . uw ; p = point(lam) ; d = |x - p|
+    cc = Ctx(run, 'geom3d:Plucker.closest')
+    vals = {}
+    for st in own_walk(cc.f.node):
+        if isinstance(st, ast.Assign) and isinstance(st.targets[0], ast.Name):
+            vals[st.targets[0].id] = st.value
+    nmc = Normaliser(rename=cc.rename)
+    for nm_, want in (('lam', 'dot(P0 - SELF.pp, SELF.uw)'), ('p', 'SELF.point(lam).flatten()'), ('d', 'norm(P0 - p)')):
+        if nm_ not in vals:
+            run.error('R16: Plucker.closest: no assignment to %s' % nm_)
+            continue
+        g = nmc.poly(canon(cc.fi, vals[nm_], inline=False))
+        w = Normaliser().poly(parse_expr(want))
+        (run.holds if g == w else run.violation)(RULE, cc.f.key, 'closest ' + nm_, want if g == w else '%s is %s; the definition is %s' % (nm_, g, w), f=cc.f)
+    # plane convention n.x + d = 0 : writer PN, readers contains / intersect_plane / Planes
+    cp = Ctx(run, 'geom3d:Plane.PN')
+    r = _single_return_value(cp)
+    okw = r is not None and matches('cls(r_[n, -dot(n, p)])', canon(cp.fi, r.value, inline=False)) is not None
+    (run.holds if okw else run.violation)(RULE, cp.f.key, 'plane writer', 'plane = [n, -n.p]  (n.x + d = 0)' if okw else
+                                          'Plane.PN does not build [n, -dot(n, p)]', f=cp.f)
+    ck = Ctx(run, 'geom3d:Plane.contains')
+    r = _single_return_value(ck)
+    if r is None:
+        run.error('R16: Plane.contains: expected a single return')
+    else:
+        e = ck.c(r.value)
+        b = matches('abs(_E) < _T', e)
+        if b is None:
+            run.error('R16: Plane.contains is not of the form abs(residual) < tol')
+        else:
+            # compose with the writer: d := -dot(n, p0), n := n ; the residual at p0 must vanish identically
+            class Sub(ast.NodeTransformer):
+                def visit_Attribute(self2, n):
+                    if isinstance(n.value, ast.Name) and n.value.id == ck.f.selfname:
+                        if n.attr == 'd':
+                            return parse_expr('-dot(N, %s)' % ck.pname(0))
+                        if n.attr == 'n':
+                            return ast.Name(id='N', ctx=ast.Load())
+                    return n
+            res = Normaliser().poly(Sub().visit(_copy.deepcopy(b['_E'])))
+            if not res.t:
+                run.holds(RULE, ck.f.key, 'plane reader agrees with writer', 'n.p + d vanishes for a plane built by PN from p', f=ck.f, node=r)
+            else:
+                run.violation(RULE, ck.f.key, 'plane reader agrees with writer', 'for a plane built by PN(p, n) the membership residual at p '
+                              'evaluates to %s, not 0: contains() uses the opposite sign convention for d (n.x - d instead of n.x + d)' % res, f=ck.f, node=r)
+    # intersect_plane: p = (v x n - d w) / (w . n)
+    ci = Ctx(run, 'geom3d:Plucker.intersect_plane')
+    vals = {}
+    for st in own_walk(ci.f.node):
+        if isinstance(st, ast.Assign) and isinstance(st.targets[0], ast.Name):
+            vals[st.targets[0].id] = st.value
+    nmi = Normaliser(rename={ci.f.selfname: 'SELF'})
+    for nm_, want in (('den', 'dot(SELF.w, plane.n)'), ('p', '(cross(SELF.v, plane.n) - plane.d * SELF.w) / den')):
+        if nm_ in vals:
+            g = nmi.poly(canon(ci.fi, vals[nm_], inline=False))
+            w = Normaliser().poly(parse_expr(want))
+            (run.holds if g == w else run.violation)(RULE, ci.f.key, 'intersect_plane ' + nm_, want if g == w else
+                                                     '%s is %s; with the convention n.x + d = 0 it must be %s' % (nm_, g, w), f=ci.f)
+        else:
+            run.error('R16: intersect_plane: no assignment to %s' % nm_)
+    # SE3 premultiplication block [[R, skew(-t) R], [0, R]]
+    cr = Ctx(run, 'geom3d:Plucker.__rmul__')
+    A = None
+    for st in own_walk(cr.f.node):
+        if isinstance(st, ast.Assign) and isinstance(st.targets[0], ast.Name) and st.targets[0].id == 'A':
+            A = canon(cr.fi, st.value, inline=False)
+    if A is None:
+        run.error('R16: Plucker.__rmul__: no A = ... block')
+    else:
+        b = matches('r_[c_[_A, _B], c_[_C, _D]]', A)
+        if b is None:
+            run.error('R16: Plucker.__rmul__: A is not r_[c_[.,.], c_[.,.]]')
+        else:
+            nmr = Normaliser()
+            got = [[nmr.poly(b['_A']), nmr.poly(b['_B'])], [nmr.poly(b['_C']), nmr.poly(b['_D'])]]
+            want = [[nmr.poly(parse_expr(x)) for x in row] for row in [['left.R', 'skew(-left.t) @ left.R'], ['zeros((3, 3))', 'left.R']]]
+            bad = compare_tables(got, want)
+            if bad:
+                for (i, j, g, w) in bad:
+                    run.violation(RULE, cr.f.key, 'SE3 * line block (%d,%d)' % (i, j), 'block is %s; [[R, skew(-t) R], [0, R]] requires %s' % (g, w), f=cr.f)
+            else:
+                run.holds(RULE, cr.f.key, 'SE3 * line', 'A = [[R, skew(-t) R], [0, R]] applied to [v; w]', f=cr.f)
+    check_expr_fn(run, 'geom3d:Plucker.__eq__', 'equality of unit 6-vectors', 'abs(1 - dot(unitvec(SELF.vec), unitvec(P0.vec))) < 10 * _eps')
+    check_even(run, 'geom3d:Plucker.isparallel', 'parallelism is independent of direction sense', 'l2', ('w', 'uw'))
+    check_expr_fn(run, 'geom3d:Plucker.__mul__', 'reciprocal product', 'dot(SELF.uw, P0.v) + dot(P0.uw, SELF.v)')
+    # Twist3.line
+    check_routes(run, [('twist:Twist3.line', 'line of action: Plucker(-v - pitch w, w)', ['Plucker([Plucker(-tw.v - tw.pitch() * tw.w, tw.w) for tw in self])'], 'return')], rule=RULE)
+
+
+def _plucker_ctor(run, key, want, desc):
+    cx = Ctx(run, key)
+    rets = sl_eval(cx)
+    if len(rets) != 1:
+        run.error('R16: %s: expected one return' % key)
+        return
+    r, e = rets[0]
+    b = matches('Plucker(r_[_V, _W])', e)
+    if b is None:
+        run.error('R16: %s: return is not Plucker(r_[v, w]): %s' % (key, src(e, 60)))
+        return
+    nm = Normaliser(rename=cx.rename)
+    gv, gw = nm.poly(b['_V']), nm.poly(b['_W'])
+    wv, ww = Normaliser().poly(parse_expr(want[0])), Normaliser().poly(parse_expr(want[1]))
+    if gv == wv and gw == ww:
+        run.holds(RULE, key, 'moment convention', desc, f=cx.f, node=r)
+    else:
+        if gv != wv:
+            run.violation(RULE, key, 'moment', 'moment is %s; the convention v = w x p requires %s' % (gv, wv), f=cx.f, node=r)
+        if gw != ww:
+            run.violation(RULE, key, 'direction', 'direction is %s; expected %s' % (gw, ww), f=cx.f, node=r)
+
+
+def _plucker_planes(run):
+    cx = Ctx(run, 'geom3d:Plucker.Planes')
+    vals = {}
+    for st in own_walk(cx.f.node):
+        if isinstance(st, ast.Assign) and isinstance(st.targets[0], ast.Name):
+            vals[st.targets[0].id] = st.value
+    nm = Normaliser()
+    for nm_, want in (('w', 'cross(pi1.n, pi2.n)'), ('v', 'pi2.d * pi1.n - pi1.d * pi2.n')):
+        if nm_ not in vals:
+            run.error('R16: Plucker.Planes: no assignment to %s' % nm_)
+            continue
+        g = nm.poly(canon(cx.fi, vals[nm_], inline=False))
+        w = nm.poly(parse_expr(want))
+        (run.holds if g == w else run.violation)(RULE, cx.f.key, 'Planes ' + nm_, want if g == w else '%s is %s; with n.x + d = 0 planes it must be %s' % (nm_, g, w), f=cx.f)
+
+
+# =========================================================================== C20 spatial vectors
+def tables_c20(run):
+    # motion cross product matrix [[skew(w), skew(v)], [0, skew(w)]] with v = A[0:3], w = A[3:6]
+    cx = Ctx(run, 'spatialvector:SpatialM6.cross')
+    vc = None
+    for st in own_walk(cx.f.node):
+        if isinstance(st, ast.Assign) and isinstance(st.targets[0], ast.Name) and st.targets[0].id == 'vcross':
+            vc = st
+    if vc is None:
+        run.error('R16: SpatialM6.cross: no vcross table')
+    else:
+        rows = matrix_literal(cx.c(vc.value))
+        if rows is None:
+            run.error('R16: SpatialM6.cross: vcross is not a literal matrix')
+        else:
+            A = 'SELF.A'
+            v = ['%s[%d]' % (A, i) for i in range(6)]
+            def sk(a, b, c):
+                return [['0', '-' + c, b], [c, '0', '-' + a], ['-' + b, a, '0']]
+            W = sk(v[3], v[4], v[5])
+            V = sk(v[0], v[1], v[2])
+            want = [W[i] + V[i] for i in range(3)] + [['0', '0', '0'] + W[i] for i in range(3)]
+            _report_table(run, cx, cx.f.key, 'motion cross-product matrix', rows, want, node=vc)
+    # results: motion -> vcross @ other.A as SpatialAcceleration ; force -> -vcross.T @ other.A as SpatialForce
+    f = cx.f
+    fi = cx.fi
+    seen = {'m': False, 'f': False}
+    cfgf = must_facts(cx.cfg)
+    for r, fs in cx.returns():
+        e = canon(fi, r.value, inline=False)
+        if any(fc[1] and matches('isinstance(other, SpatialVelocity)', fc[2].ast) is not None for fc in fs):
+            ok = matches('SpatialAcceleration(vcross @ other.A)', e) is not None
+            seen['m'] = True
+            (run.holds if ok else run.violation)(RULE, f.key, 'v x m', 'motion result = vcross @ m (SpatialAcceleration)' if ok else
+                                                 'motion cross product is %s, not SpatialAcceleration(vcross @ other.A)' % src(r.value, 60), f=f, node=r)
+        elif any(fc[1] and matches('isinstance(other, SpatialF6)', fc[2].ast) is not None for fc in fs):
+            ok = matches('SpatialForce(-vcross.T @ other.A)', e) is not None
+            seen['f'] = True
+            (run.holds if ok else run.violation)(RULE, f.key, 'v x* f', 'force result = -vcross^T @ f (SpatialForce)' if ok else
+                                                 'force cross product is %s, not SpatialForce(-vcross.T @ other.A): the duality (v x* f).m = -f.(v x m) is lost' % src(r.value, 60), f=f, node=r)
+    for k, nm_ in (('m', 'motion'), ('f', 'force')):
+        if not seen[k]:
+            run.error('R16: SpatialM6.cross: %s branch not found' % nm_)
+    # SE3 * spatial vector: Ad @ for motion, Ad.T @ for force
+    cr = Ctx(run, 'spatialvector:SpatialVector.__rmul__')
+    okm = okf = False
+    for r, fs in cr.returns():
+        e = canon(cr.fi, r.value, inline=True)
+        m = any(fc[1] and matches('isinstance(right, SpatialM6)', fc[2].ast) is not None for fc in fs)
+        nf = any((not fc[1]) and matches('isinstance(right, SpatialM6)', fc[2].ast) is not None for fc in fs)
+        if m:
+            okm = matches('right.__class__(left.Ad() @ right.A)', e) is not None
+            if not okm:
+                run.violation(RULE, cr.f.key, 'motion transform', 'motion vectors must be mapped by Ad @ v; found %s' % src(r.value, 60), f=cr.f, node=r)
+        elif nf:
+            okf = matches('right.__class__(left.Ad().T @ right.A)', e) is not None
+            if not okf:
+                run.violation(RULE, cr.f.key, 'force transform', 'force vectors must be mapped by Ad^T @ f; found %s' % src(r.value, 60), f=cr.f, node=r)
+    if okm:
+        run.holds(RULE, cr.f.key, 'motion transform', 'Ad @ v for SpatialM6', f=cr.f)
+    if okf:
+        run.holds(RULE, cr.f.key, 'force transform', 'Ad^T @ f otherwise', f=cr.f)
+    # spatial inertia block
+    ci = Ctx(run, 'spatialvector:SpatialInertia.__init__')
+    blk = None
+    for st in own_walk(ci.f.node):
+        if isinstance(st, ast.Assign) and isinstance(st.value, ast.Call) and matches('block(__)', canon(ci.fi, st.value, inline=False)) is not None:
+            blk = st
+    if blk is None:
+        run.error('R16: SpatialInertia.__init__: no np.block table')
+    else:
+        b = _blocks(canon(ci.fi, blk.value, inline=False))
+        nm = Normaliser()
+        nm.scalars = {'m'}
+        got = [[nm.poly(x) for x in r_] for r_ in b]
+        want = [[nm.poly(parse_expr(x)) for x in r_] for r_ in [['m * eye(3)', 'm * C.T'], ['m * C', 'I + m * C @ C.T']]]
+        bad = compare_tables(got, want)
+        if bad:
+            for (i, j, g, w) in bad:
+                run.violation(RULE, ci.f.key, 'inertia block (%d,%d)' % (i, j), 'block is %s; the parallel-axis matrix [[m I, m C^T],[m C, I + m C C^T]] requires %s' % (g, w), f=ci.f, node=blk)
+        else:
+            run.holds(RULE, ci.f.key, 'parallel-axis matrix', '[[m I, m C^T], [m C, I + m C C^T]], C = skew(r)', f=ci.f, node=blk)
+        okc = any(isinstance(st, ast.Assign) and isinstance(st.targets[0], ast.Name) and st.targets[0].id == 'C' and
+                  matches('skew(r)', canon(ci.fi, st.value, inline=False)) is not None for st in own_walk(ci.f.node))
+        (run.holds if okc else run.violation)(RULE, ci.f.key, 'C = skew(r)', 'C is the skew matrix of the centre of mass' if okc else 'C is not skew(r)', f=ci.f)
+    check_routes(run, [
+        ('spatialvector:SpatialInertia.__add__', 'inertias add', ['SpatialInertia(left.A + right.A)'], 'return'),
+        ('spatialvector:SpatialVelocity.__matmul__', '@ is the cross product', ['self.cross(other)'], 'return'),
+    ], rule=RULE)
+    # typed guards of + and -
+    for key, opn in (('spatialvector:SpatialVector.__add__', '+'), ('spatialvector:SpatialVector.__sub__', '-')):
+        cx2 = Ctx(run, key)
+        rs = cx2.returns()
+        if len(rs) != 1:
+            run.error('R16: %s: expected one return' % key)
+            continue
+        r, fs = rs[0]
+        tg = any((not fc[1]) and matches('type(left) != type(right)', fc[2].ast) is not None or fc[1] and matches('type(left) == type(right)', fc[2].ast) is not None for fc in fs)
+        lg = any((not fc[1]) and matches('len(left) != len(right)', fc[2].ast) is not None or fc[1] and matches('len(left) == len(right)', fc[2].ast) is not None for fc in fs)
+        e = canon(cx2.fi, r.value, inline=False)
+        form = matches('left.__class__([x %s y for x, y in zip(left.data, right.data)])' % opn, e) is not None
+        (run.holds if tg else run.violation)(RULE, key, 'class guard', 'same-class test dominates the arithmetic' if tg else 'mixed spatial-vector classes are not rejected before the arithmetic', f=cx2.f)
+        (run.holds if lg else run.violation)(RULE, key, 'length guard', 'equal-length test dominates the arithmetic' if lg else 'unequal lengths are not rejected (zip truncates)', f=cx2.f)
+        (run.holds if form else run.violation)(RULE, key, 'element-wise form', 'left.__class__([x %s y ...])' % opn if form else 'result is %s' % src(r.value, 60), f=cx2.f)
+    # constructor: form tests look at the raw argument (a list of values must not be coerced to a matrix)
+    cc = Ctx(run, 'spatialvector:SpatialVector.__init__')
+    val = cc.pname(0)
+    bad = []
+    n = 0
+    for st in own_walk(cc.f.node):
+        if isinstance(st, ast.Call):
+            nm_ = None
+            ce = canon(cc.fi, st, inline=False)
+            if isinstance(ce.func, ast.Name) and ce.func.id in ('isvector', 'ismatrix', 'isinstance') and ce.args:
+                n += 1
+                a0 = st.args[0]
+                if not (isinstance(a0, ast.Name) and a0.id == val):
+                    bad.append((st, a0))
+    if bad:
+        run.violation(RULE, cc.f.key, 'form tests on the raw argument', 'the argument-form test %s is applied to a coerced copy (%s), not to the '
+                      'argument itself: a LIST of per-value vectors is then taken for a 6xN matrix (columns), so results of +, -, unary - '
+                      'on 6-valued objects are transposed' % (src(bad[0][0], 50), src(bad[0][1], 30)), f=cc.f, node=bad[0][0])
+    elif n:
+        run.holds(RULE, cc.f.key, 'form tests on the raw argument', '%d form tests applied to the argument itself' % n, f=cc.f)
+    else:
+        run.error('R16: SpatialVector.__init__: no form tests found')
